@@ -29,7 +29,9 @@ const mods = {};
 for (const n of Object.keys(spec.structs).concat(Object.keys(spec.enums)).concat([spec.opaque])) {
   mods[n] = (await import(process.cwd() + "/" + n + ".mjs"))[n];
 }
+function mkOpaque(ty, ptr) { return new mods[ty](rt.internalConstructor, ptr, [1]); }
 function leafDefault(l) {
+  if (l.kind === "opaque") return l.optional ? null : mkOpaque(l.ty, 0);
   if (l.kind === "enum") return mods[l.ty][l.variants[0][0]];
   if (l.ty === "bool") return false;
   if (l.ty === "i64" || l.ty === "u64") return 0n;
@@ -59,13 +61,14 @@ function leaves(sname, prefix, out, optPath) {
       const op = (optPath || []).concat([path + "?"]);
       if (f.inner.kind === "struct") leaves(f.inner.ty, path + ".", out, op);
       else out.push({ path, kind: f.inner.kind, ty: f.inner.ty, variants: f.inner.variants, opt: op });
-    } else out.push({ path, kind: f.kind, ty: f.ty, variants: f.variants, opt: optPath });
+    } else out.push({ path, kind: f.kind, ty: f.ty, variants: f.variants, opt: optPath, optional: f.optional });
   }
   return out;
 }
 function altValues(l) {
   // two values whose little-endian images differ from zero in every byte (where the type allows)
   if (l.kind === "enum") return l.variants.slice(1).map(v => ({ js: mods[l.ty][v[0]], tok: "enum:" + v[0] })).slice(0, 2);
+  if (l.kind === "opaque") return [{ js: mkOpaque(l.ty, 0x44332211), tok: "ptr:" + 0x44332211 }, { js: mkOpaque(l.ty, 0xFFFFFFFF), tok: "ptr:" + 0xFFFFFFFF }];
   const t = l.ty;
   const ints = { u8: 8, i8: 8, u16: 16, i16: 16, u32: 32, i32: 32, DiplomatChar: 32, DiplomatByte: 8, usize: 32, isize: 32 };
   if (t === "bool") return [{ js: true, tok: "true" }];
@@ -92,6 +95,7 @@ function show(v) {
   if (typeof v === "number") return Number.isNaN(v) ? "NaN" : v;
   if (typeof v === "boolean") return v;
   if (typeof v === "object" && "ffiValue" in v && "value" in v) return "enum:" + v.value;
+  if (typeof v === "object" && "ffiValue" in v) return "ptr:" + v.ffiValue;
   return String(v);
 }
 function getLeaf(obj, path) {
@@ -133,7 +137,7 @@ for (const sname of Object.keys(spec.structs)) {
     const PTR = 512;
     const mem = new Uint8Array(MEM);
     const flagOffsets = {};
-    const readAll = () => S._fromFFI(rt.internalConstructor, PTR);
+    const readAll = () => S._fromFFI(rt.internalConstructor, PTR, [1], [1], [1], [1]);   // extra arguments: lifetime edge arrays of borrowing structs
     const sizeGuess = 96;
     // 1. locate option flags: the byte that makes the field non-null when set to 1
     for (const l of ls) if (l.kind === "flag") {
@@ -211,6 +215,7 @@ for (const sname of Object.keys(spec.structs)) {
           k++;
           if (mode === "sentinel") {
             if (l.kind === "enum") { const v = l.variants[l.variants.length - 1]; assign[l.path] = mods[l.ty][v[0]]; tokens[l.path] = v[1]; }
+            else if (l.kind === "opaque") { assign[l.path] = mkOpaque(l.ty, 7000 + k); tokens[l.path] = 7000 + k; }
             else if (l.ty === "bool") { assign[l.path] = true; tokens[l.path] = true; }
             else if (l.ty === "u64" || l.ty === "i64") { assign[l.path] = BigInt(100 + k); tokens[l.path] = "n" + (100 + k); }
             else if (l.ty === "f32" || l.ty === "f64") { assign[l.path] = 100.5 + k; tokens[l.path] = 100.5 + k; }
@@ -218,7 +223,7 @@ for (const sname of Object.keys(spec.structs)) {
           } else {
             const d = leafDefault(l);
             assign[l.path] = d;
-            tokens[l.path] = (l.kind === "enum") ? l.variants[0][1] : tok(d);
+            tokens[l.path] = (l.kind === "enum") ? l.variants[0][1] : (l.kind === "opaque") ? 0 : tok(d);
           }
         }
         calls.length = 0; allocs.length = 0; allocLog.length = 0;
